@@ -386,6 +386,36 @@ func runScn(s *Scn, u *univ.Universe, lg *gate.Log, idx int) error {
 				emit(ev)
 			}
 		}
+		// ... and likewise every StatBlobs / EnumerateBlobs call of the lost replicas
+		for mask := 1; mask < 1<<len(s.Rd); mask++ {
+			var down []any
+			w.plan.Faults = nil
+			for k, i := range s.Rd {
+				if mask&(1<<k) != 0 {
+					down = append(down, i)
+					for _, call := range []string{"StatBlobs", "EnumerateBlobs"} {
+						w.plan.Faults = append(w.plan.Faults, &gate.Fault{Layer: fmt.Sprintf("s%d", i), Call: call, N: 1, Kind: "error"})
+					}
+				}
+			}
+			lossy := func(op drv.Op, name string) {
+				for _, f := range w.plan.Faults {
+					f.Rearm()
+				}
+				ev := r.Do(op)
+				ev["op"] = name
+				ev["down"] = down
+				if ev["res"] == "injected" {
+					ev["res"] = "failed"
+				}
+				emit(ev)
+			}
+			lossy(drv.Op{Op: "stat", Bs: all}, "statf")
+			lossy(drv.Op{Op: "stat", Bs: []int{s.B}}, "statf")
+			for _, after := range []int{0, 3} {
+				lossy(drv.Op{Op: "enum", After: after, Limit: 3}, "enumf")
+			}
+		}
 		w.plan.Faults = nil
 	}
 	return nil
